@@ -163,12 +163,51 @@ def check(chk):
             chk.violation("G-HAZ.link", key, where,
                           "invariant of %s relies on validator check `%s`, which no longer exists in the guard table" % (key, link))
             continue
+        ev = row.get("established_by_value")
+        if ev:
+            bad = value_exclusion(chk, ev)
+            if bad:
+                chk.violation("G-HAZ.link", key, where,
+                              "invariant of %s (%s) relies on %s never yielding `%s` for a %s: %s"
+                              % (key, row["why"][:100], ev["fn"], ev["excludes"], ev["alternative"], bad))
+                continue
         chk.ok("G-HAZ.invariant", key + "#%s" % s["line"], {"where": where, "hazard": s["kind"], "invariant": row["why"][:120]})
     stale = [k for k in rows if k not in used]
     if stale:
         chk.notes.append("G-HAZ: %d invariant rows no longer match a site (harmless): %s" % (len(stale), stale[:5]))
     chk.floor("G-HAZ sites", n, 150)
     return n
+
+
+def value_exclusion(chk, ev):
+    """an invariant of the form `helper F, for the variant alternative A, never returns the value X` (the arm of a
+    std::visit that a consumer declares unreachable): decided on the exits of the callable that handles A inside F -
+    the lambda taking `const A&`, else the generic one.  Each exit must be a literal other than X, or the declared
+    value under a guard that excludes X.  Returns a description of the offending exit, or None."""
+    import gguard
+    found = gguard.extract_returns()
+    fn_key, alt, x = ev["fn"], ev["alternative"], ev["excludes"]
+    lambdas = {k: v for k, v in found.items() if k.startswith(fn_key + "::(lambda ")}
+    if not lambdas:
+        raise AnalysisBroken("G-HAZ.link: no visitor lambdas found in %s (re-confirm the invariant row)" % fn_key)
+    exact = [k for k in lambdas if k == "%s::(lambda %s)" % (fn_key, alt)]
+    generic = [k for k in lambdas if "type-parameter" in k or "auto" in k]
+    pick = exact or generic
+    if not pick:
+        raise AnalysisBroken("G-HAZ.link: %s has no handler for %s (re-confirm the invariant row)" % (fn_key, alt))
+    for k in pick:
+        for rs, _fn in lambdas[k]:
+            for e, g in rs:
+                gs = " && ".join(g)
+                if e == x:
+                    return "the handler %s returns `%s`" % (k, x)
+                if re.fullmatch(r"[A-Za-z_][A-Za-z_0-9]*", e):
+                    continue            # another enumerator
+                # a computed / declared value: the guard has to exclude X
+                if ("%s != %s" % (e, x)) in gs or re.search(r"%s == (?!%s\b)[A-Za-z_]+" % (re.escape(e), re.escape(x)), gs):
+                    continue
+                return "the handler %s returns `%s`%s, which can be `%s`" % (k, e, (" under {%s}" % gs) if gs else "", x)
+    return None
 
 
 def dump_unguarded():
